@@ -155,6 +155,16 @@ struct Shared {
 
 const PORT: u16 = 9000;
 
+/// Harness assumption: a request sent to the connector's own host (own
+/// address or 127.0.0.1 / ::1) reaches that host's listener table no earlier
+/// than the step after the connect call and no later than `LOCAL_K` steps
+/// after it.  Nothing in the property text or the rustdoc says how long a
+/// same-host message takes (or that same-host messages keep their order), so
+/// no clause may depend on WHICH step of that range it is: a verdict is only
+/// asserted when every admissible delivery step yields it.  The upper end is
+/// needed for the promptness clauses only ("refused / accepted by step ..").
+const LOCAL_K: u64 = 4;
+
 async fn wait_step(sh: &Shared, k: u64) {
     while sh.step.get() < k {
         tokio::time::sleep(Duration::from_millis(1)).await;
@@ -812,7 +822,8 @@ fn run_inner(sc0: &Scenario) -> Outcome {
             let st = started[i];
             let due: Option<u64> = match (c.target, c.from) {
                 (Target::Nowhere, _) => Some(st),
-                (_, 0) => Some(st + 1),
+                // same-host: delivered somewhere in st+1 ..= st+LOCAL_K
+                (_, 0) => Some(st + LOCAL_K),
                 _ => match fates.get(i).map(|f| f.0) {
                     Some(Fate::Delivered { hi, .. }) => Some(hi),
                     Some(Fate::Dropped { at }) => Some(at),
@@ -875,6 +886,38 @@ fn run_inner(sc0: &Scenario) -> Outcome {
         }
     }
 
+    // ---------------- admissible delivery steps (lo ..= hi) of a request at
+    // the server host.  Remote: the range the link history yields.  Same
+    // host: the step after the connect call ..= LOCAL_K steps after it; the
+    // upper end is tightened by observation - a request was delivered no
+    // later than the step in which it was accepted (the connect returned Ok)
+    // or in which the connect was refused (a refusal is the answer to the
+    // delivered request: nobody bound, or the listener dropped with the
+    // request queued).  A connector that gave up tells nothing.
+    let arrival = |i: &usize, c: &Conn| -> Option<(u64, u64)> {
+        let a = *started.get(i)?;
+        if c.from == 0 {
+            let lo = a + 1;
+            let mut hi = a + LOCAL_K;
+            if let Some(r) = results.get(i) {
+                let seen = match pair_of.get(i) {
+                    Some(k) => Some(accepted[*k].at_step.min(r.at_step)),
+                    None if r.ok || r.kind == "ConnectionRefused" => Some(r.at_step),
+                    None => None,
+                };
+                if let Some(t) = seen {
+                    hi = hi.min(t).max(lo);
+                }
+            }
+            Some((lo, hi))
+        } else {
+            match fates.get(i).map(|f| f.0) {
+                Some(Fate::Delivered { lo, hi }) => Some((lo, hi.max(lo))),
+                _ => None,
+            }
+        }
+    };
+
     // ---------------- no request waits in the queue while a task is parked
     // in accept().  accept() takes the oldest live request or parks; a
     // delivered request wakes a parked acceptor in the same step.  So a
@@ -892,9 +935,11 @@ fn run_inner(sc0: &Scenario) -> Outcome {
                 continue;
             }
             let (Some(a), Some(r)) = (started.get(i), results.get(i)) else { continue };
-            // latest step in which the request reaches the server
+            // latest step in which the request reaches the server: the END
+            // of its admissible range (same-host: how long the delivery
+            // takes within the range is not asserted)
             let j_hi = if c.from == 0 {
-                *a + 1
+                *a + LOCAL_K
             } else {
                 match fates.get(i).map(|f| f.0) {
                     Some(Fate::Delivered { hi, .. }) => hi,
@@ -934,11 +979,12 @@ fn run_inner(sc0: &Scenario) -> Outcome {
         return out;
     }
 
-    // ---------------- exact step model of the listener timeline.  Remote
+    // ---------------- step model of the listener timeline.  Remote
     // requests: fixed latency >= 1 ms, fixed host order, delivery step known
     // from the link history.  Same-host requests: always (they never touch a
-    // link); delivered by a task that sleeps one tick, i.e. in the first poll
-    // batch of the step after the connect call.
+    // link), but their delivery step is only known as a range (see
+    // `arrival`): the verdict of every admissible delivery step is computed
+    // and one is asserted only when they all agree.
     {
         let b_ = sc.bind_step as u64;
         let d_ = sc.drop_step.map(|d| d as u64);
@@ -963,7 +1009,15 @@ fn run_inner(sc0: &Scenario) -> Outcome {
             .min()
             .unwrap_or(NEVER);
         let r_ = sc.rebind_step.map(|r| r as u64);
-        let mut expected_order: Vec<(u64, usize)> = Vec::new();
+        // listener state as of the delivery
+        #[derive(PartialEq, Clone, Copy, Debug)]
+        enum Exp {
+            Refused,
+            Accepted,
+            Either,
+        }
+        // (first admissible delivery step, last admissible delivery step, connector)
+        let mut expected_order: Vec<(u64, u64, usize)> = Vec::new();
         let mut local_checked = false;
         for (i, c) in &conns {
             if !matches!(c.target, Target::Server | Target::Loopback | Target::DeadPort) {
@@ -974,15 +1028,18 @@ fn run_inner(sc0: &Scenario) -> Outcome {
             // sequenced by the server task: the order against the server's
             // own action of the same step is exact
             let seq = local && c.order != 0;
-            // delivery step of the SYN at the server
-            let j = if local {
-                a + 1
+            // admissible delivery steps of the SYN at the server
+            let (j_lo, j_hi) = if local {
+                match arrival(i, c) {
+                    Some(x) => x,
+                    None => continue,
+                }
             } else {
                 if !exact_remote {
                     continue;
                 }
-                match fates.get(i).map(|f| f.0) {
-                    Some(Fate::Delivered { lo, hi }) if lo == hi => lo,
+                match arrival(i, c) {
+                    Some((lo, hi)) if lo == hi => (lo, hi),
                     _ => continue,
                 }
             };
@@ -997,67 +1054,82 @@ fn run_inner(sc0: &Scenario) -> Outcome {
             } else {
                 local && c.target == Target::Loopback
             };
-            // listener state as of the delivery
-            #[derive(PartialEq, Debug)]
-            enum Exp {
-                Refused,
-                Accepted,
-                Either,
-            }
-            // A remote request is handed over at the start of the server's
-            // turn, before any server code of that step; a same-host request
-            // is handed over by a task in the first poll batch of step j,
-            // unordered against the server's own action of step j (sequenced
-            // connectors) or within a step of it (free-running connectors).
-            let near = |x: u64| if seq { j == x } else { j + 1 >= x && j <= x + 1 };
-            let within_first = j > b_ && d_.map(|d| j <= d).unwrap_or(true);
-            let within_second = match (d_, r_) {
-                (Some(_), Some(r)) => j > r,
-                _ => false,
-            };
-            let mut exp = if !addr_ok {
-                Exp::Refused
-            } else if within_first {
-                // queued; accepted in max(j, s_lo) ..= max(j, s_) unless the listener is dropped first
-                let acc_at = j.max(s_);
-                match d_ {
-                    Some(d) if j.max(s_lo) > d => Exp::Refused,
-                    Some(d) if acc_at + 1 >= d => Exp::Either,
-                    None if acc_at >= NEVER => Exp::Either,
-                    _ => Exp::Accepted,
-                }
-            } else if within_second {
-                Exp::Accepted
-            } else {
-                // boundary steps (delivery in the very step of bind / re-bind) can go either way
-                let near_remote = |x: u64| j + 1 >= x && j <= x + 1;
-                if !local && (near_remote(b_) || r_.map(near_remote).unwrap_or(false)) {
+            // The verdict if the request is delivered in step j.  A remote
+            // request is handed over at the start of the server's turn,
+            // before any server code of that step; a same-host request is
+            // handed over by a task during step j, unordered against the
+            // server's own action of step j (sequenced connectors) or within
+            // a step of it (free-running connectors).
+            let verdict = |j: u64| -> Exp {
+                let near = |x: u64| if seq { j == x } else { j + 1 >= x && j <= x + 1 };
+                let within_first = j > b_ && d_.map(|d| j <= d).unwrap_or(true);
+                let within_second = match (d_, r_) {
+                    (Some(_), Some(r)) => j > r,
+                    _ => false,
+                };
+                let exp = if !addr_ok {
+                    Exp::Refused
+                } else if within_first {
+                    // queued; accepted in max(j, s_lo) ..= max(j, s_) unless the listener is dropped first
+                    let acc_at = j.max(s_);
+                    match d_ {
+                        Some(d) if j.max(s_lo) > d => Exp::Refused,
+                        Some(d) if acc_at + 1 >= d => Exp::Either,
+                        None if acc_at >= NEVER => Exp::Either,
+                        _ => Exp::Accepted,
+                    }
+                } else if within_second {
+                    Exp::Accepted
+                } else {
+                    // boundary steps (delivery in the very step of bind / re-bind) can go either way
+                    let near_remote = |x: u64| j + 1 >= x && j <= x + 1;
+                    if !local && (near_remote(b_) || r_.map(near_remote).unwrap_or(false)) {
+                        Exp::Either
+                    } else {
+                        Exp::Refused
+                    }
+                };
+                if local && addr_ok && exp != Exp::Either && (near(b_) || d_.map(near).unwrap_or(false) || r_.map(near).unwrap_or(false)) {
                     Exp::Either
                 } else {
-                    Exp::Refused
+                    exp
                 }
             };
-            if local && addr_ok && exp != Exp::Either && (near(b_) || d_.map(near).unwrap_or(false) || r_.map(near).unwrap_or(false)) {
-                exp = Exp::Either;
+            // asserted only when every admissible delivery step agrees
+            let mut exp = verdict(j_lo);
+            for j in j_lo + 1..=j_hi {
+                if verdict(j) != exp {
+                    exp = Exp::Either;
+                    break;
+                }
+            }
+            if local {
+                out.label(match exp {
+                    Exp::Accepted => "same-host:every-admissible-delivery-step:accepted",
+                    Exp::Refused => "same-host:every-admissible-delivery-step:refused",
+                    Exp::Either => "same-host:delivery-steps-disagree-or-race",
+                });
             }
             // a connector that gives up
             let r = &results[i];
-            let by = d_.filter(|d| j <= *d).map(|d| d.max(j)).unwrap_or(j) + 2;
+            // refusal due: the latest admissible delivery, or the drop of the
+            // listener it may have been queued at, + 2 steps
+            let by = (j_lo..=j_hi).map(|j| d_.filter(|d| j <= *d).map(|d| d.max(j)).unwrap_or(j)).max().unwrap_or(j_hi) + 2;
             if let Some(w) = c.timeout_steps {
                 let give_up = a + w as u64;
-                let acc_at = j.max(s_);
+                let acc_at = j_hi.max(s_);
                 if exp == Exp::Accepted && give_up <= acc_at + 2 {
                     exp = Exp::Either;
                 }
                 if r.kind == "TimedOut" {
                     if exp == Exp::Accepted {
-                        out.fail("connect-still-pending-although-accepting-listener", format!("connector {i} {c:?}: gave up at step {give_up}, SYN delivered at {j}, accepting since {s_}"));
+                        out.fail("connect-still-pending-although-accepting-listener", format!("connector {i} {c:?}: gave up at step {give_up}, SYN delivered in steps {j_lo}..={j_hi}, accepting since {s_}"));
                         return out;
                     }
                     if exp == Exp::Refused && give_up > by + 1 {
                         out.fail(
                             "connect-still-pending-although-nobody-can-accept-it",
-                            format!("connector {i} {c:?}: gave up at step {give_up}; SYN delivered at step {j}, refusal due by step {by} (bind {b_} accept {s_} drop {d_:?} rebind {r_:?})"),
+                            format!("connector {i} {c:?}: gave up at step {give_up}; SYN delivered in steps {j_lo}..={j_hi}, refusal due by step {by} (bind {b_} accept {s_} drop {d_:?} rebind {r_:?})"),
                         );
                         return out;
                     }
@@ -1069,26 +1141,32 @@ fn run_inner(sc0: &Scenario) -> Outcome {
                     if !r.ok {
                         out.fail(
                             "connect-refused-although-listener-accepting",
-                            format!("connector {i} {c:?} (connect called in step {a}, order {} against the server's own action of that step; SYN delivered step {j}; bind {b_} accept {s_} drop {d_:?} rebind {r_:?}): {r:?}", c.order),
+                            format!(
+                                "connector {i} {c:?} (connect called in step {a}, order {} against the server's own action of that step; SYN delivered in steps {j_lo}..={j_hi}, a bound listener with an accepting task in every one of them; bind {b_} accept {s_} drop {d_:?} rebind {r_:?}): {r:?}",
+                                c.order
+                            ),
                         );
                         return out;
                     }
-                    expected_order.push((j, *i));
+                    expected_order.push((j_lo, j_hi, *i));
                 }
                 Exp::Refused => {
                     if r.ok {
-                        out.fail("connect-succeeded-without-live-listener", format!("connector {i} {c:?} (SYN sent step {a}, delivered step {j}; bind {b_} accept {s_} drop {d_:?} rebind {r_:?})"));
+                        out.fail(
+                            "connect-succeeded-without-live-listener",
+                            format!("connector {i} {c:?} (SYN sent step {a}, delivered in steps {j_lo}..={j_hi}, no matching listener in any of them; bind {b_} accept {s_} drop {d_:?} rebind {r_:?})"),
+                        );
                         return out;
                     }
                     // promptness: refused no later than the drop / the delivery + 2 steps
                     if r.kind == "ConnectionRefused" && r.at_step > by {
-                        out.fail("refusal-too-late", format!("connector {i}: SYN delivered step {j}, refused at step {} (expected by {by})", r.at_step));
+                        out.fail("refusal-too-late", format!("connector {i}: SYN delivered in steps {j_lo}..={j_hi}, refused at step {} (expected by {by})", r.at_step));
                         return out;
                     }
                 }
                 Exp::Either => {
                     if r.ok {
-                        expected_order.push((j, *i));
+                        expected_order.push((j_lo, j_hi, *i));
                     }
                 }
             }
@@ -1102,19 +1180,23 @@ fn run_inner(sc0: &Scenario) -> Outcome {
                 }
             }
         }
-        // accept order = arrival order (different delivery steps only; remote SYNs only)
+        // accept order = arrival order, asserted only when the admissible
+        // delivery ranges are disjoint with a step between them (same-host
+        // requests may overtake each other within their ranges)
         let pos: BTreeMap<u32, usize> = accepted.iter().enumerate().filter_map(|(k, a)| a.nonce.map(|n| (n, k))).collect();
         for x in &expected_order {
             for y in &expected_order {
-                let (cx, cy) = (&conns[x.1].1, &conns[y.1].1);
-                if cx.from == 0 || cy.from == 0 {
-                    continue;
-                }
-                if x.0 + 1 < y.0 {
-                    if let (Some(px), Some(py)) = (pos.get(&(x.1 as u32)), pos.get(&(y.1 as u32))) {
+                if x.1 + 1 < y.0 {
+                    if let (Some(px), Some(py)) = (pos.get(&(x.2 as u32)), pos.get(&(y.2 as u32))) {
                         if accepted[*px].listener_gen == accepted[*py].listener_gen && px > py {
-                            out.fail("accept-order-differs-from-arrival-order", format!("connector {} (SYN delivered step {}) accepted after connector {} (delivered step {})", x.1, x.0, y.1, y.0));
+                            out.fail(
+                                "accept-order-differs-from-arrival-order",
+                                format!("connector {} (SYN delivered in steps {}..={}) accepted after connector {} (delivered in steps {}..={}); accepted {accepted:?}", x.2, x.0, x.1, y.2, y.0, y.1),
+                            );
                             return out;
+                        }
+                        if conns[x.2].1.from == 0 || conns[y.2].1.from == 0 {
+                            out.label("accept-order:checked-with-same-host-request");
                         }
                     }
                 }
@@ -1160,6 +1242,7 @@ fn run_inner(sc0: &Scenario) -> Outcome {
             if !matches!(c.target, Target::Server | Target::Loopback) {
                 continue;
             }
+            // (labels only: nominal delivery step of a same-host request)
             let j = if c.from == 0 {
                 started.get(i).map(|a| a + 1)
             } else {
@@ -1604,12 +1687,13 @@ fn check(tier: Tier, seed: u64) -> i32 {
     ctx.exhaustive("acceptor-pools", &ap_desc, Box::new(ap.into_iter()), &run);
     ctx.random("pairing", tier.pick(24_000, 300_000), &|| strategy(), &run);
     ctx.finish(
-        "random scenarios: a server timeline (bind, start accepting, optional listener drop and re-bind; accepting is done by one accept loop or, in 4 of 9 scenarios, by a pool of 1-3 tasks that share the listener through an Rc and are parked in accept() concurrently, each started 0-3 steps after the accept step and, after a stream was returned to it, either staying busy with it for good, calling accept again after 1-7 steps, or looping at once; a pool scenario usually gets a burst of 2-5 connects called in one step, or in consecutive steps, by connectors on one remote host, on both remote hosts or on any host, 0-11 steps after the accept step, so that several requests reach the listener in the same step while several, fewer or more tasks are parked; the listener of a pool scenario is dropped at the end of the run so that requests nobody is left to accept are refused) and 1-7 connectors on the server's own host (own address, 127.0.0.1/::1; free-running, or issued by the server task itself just before / just after its own bind / drop / re-bind of the same step) and on two remote hosts, started at generated steps, some giving up after a generated number of steps, some aimed at a dead port or an address nobody owns; wildcard or localhost bind, v4/v6 (v6 destinations optionally as SocketAddrV6 with a scope id unless F-C12-1 is recorded as known), fixed or ranged latency, a history of up to 4 hold / release / partition / repair calls in any order around the first connector's request (or a hold/release or partition/repair pair anywhere), random host order; plus three bounded-exhaustive families (link histories around one pending connect; same-host connect against bind / re-bind / drop; pools of accepting tasks against bursts of connects). Every successful connector writes its index, every accepted stream reads it. Oracle: nonce bijection (each success accepted exactly once, accepted streams without a connector only for connectors that gave up), mirrored addresses, ConnectionRefused for dead ports / unknown addresses / localhost listeners, no connect left pending, stream counts back to 0 after all streams were dropped; a model of the link history decides for every request from c0 whether it is dropped by a partition (sent into one, or in flight / parked by a hold when it is set: the connect must be refused, promptly, never succeed, never stay pending), parked until a release, or delivered in a known step range (no Ok and no refusal before that), leaving open what the documentation leaves open; an exact step-level model of the listener timeline decides accept-vs-refuse, refusal promptness and accept order = arrival order for remote requests under fixed latency >= 1 ms and fixed host order, and for same-host requests always (delivered in the step after the connect call: the listener state at that step counts, not the state when connect was called); with a pool of accepting tasks the model bounds the accept step of a queued request between the first accept() call of any task and the start of the first looping task (or of the last task when there are at least as many tasks as requests), and admits a request waiting until the listener goes away otherwise; for every accept() call of every task (called in step p, returned in step q or never) and every request certainly delivered by step j: the request is not still waiting (neither accepted, refused nor given up on) after step max(j, p) + 1 while that call has not returned - no connect is left waiting in the queue while a task is parked in accept(). Non-trivial = >= 2 connectors pending at once and >= 1 refusal or give-up. Distinct by scenario hash.",
+        "random scenarios: a server timeline (bind, start accepting, optional listener drop and re-bind; accepting is done by one accept loop or, in 4 of 9 scenarios, by a pool of 1-3 tasks that share the listener through an Rc and are parked in accept() concurrently, each started 0-3 steps after the accept step and, after a stream was returned to it, either staying busy with it for good, calling accept again after 1-7 steps, or looping at once; a pool scenario usually gets a burst of 2-5 connects called in one step, or in consecutive steps, by connectors on one remote host, on both remote hosts or on any host, 0-11 steps after the accept step, so that several requests reach the listener in the same step while several, fewer or more tasks are parked; the listener of a pool scenario is dropped at the end of the run so that requests nobody is left to accept are refused) and 1-7 connectors on the server's own host (own address, 127.0.0.1/::1; free-running, or issued by the server task itself just before / just after its own bind / drop / re-bind of the same step) and on two remote hosts, started at generated steps, some giving up after a generated number of steps, some aimed at a dead port or an address nobody owns; wildcard or localhost bind, v4/v6 (v6 destinations optionally as SocketAddrV6 with a scope id unless F-C12-1 is recorded as known), fixed or ranged latency, a history of up to 4 hold / release / partition / repair calls in any order around the first connector's request (or a hold/release or partition/repair pair anywhere), random host order; plus three bounded-exhaustive families (link histories around one pending connect; same-host connect against bind / re-bind / drop; pools of accepting tasks against bursts of connects). Every successful connector writes its index, every accepted stream reads it. Oracle: nonce bijection (each success accepted exactly once, accepted streams without a connector only for connectors that gave up), mirrored addresses, ConnectionRefused for dead ports / unknown addresses / localhost listeners, no connect left pending, stream counts back to 0 after all streams were dropped; a model of the link history decides for every request from c0 whether it is dropped by a partition (sent into one, or in flight / parked by a hold when it is set: the connect must be refused, promptly, never succeed, never stay pending), parked until a release, or delivered in a known step range (no Ok and no refusal before that), leaving open what the documentation leaves open; a step-level model of the listener timeline decides accept-vs-refuse, refusal promptness and accept order = arrival order for remote requests under fixed latency >= 1 ms and fixed host order (delivery step known exactly), and for same-host requests always, over a RANGE of admissible delivery steps (the step after the connect call ..= 4 steps after it, the upper end tightened by observation: delivered no later than the step in which the request was accepted or the connect refused): the verdict (must succeed / must be refused) is computed for every admissible delivery step from the listener state at that step - not the state when connect was called - and asserted only when all of them agree (e.g. connect issued just before a bind of the same step, listener then bound with an accepting task throughout: must succeed; nobody bound during the whole range: must be refused, by the end of the range + 2 steps); accept order between two requests is asserted when their delivery ranges are disjoint with a step between them (same-host requests included); with a pool of accepting tasks the model bounds the accept step of a queued request between the first accept() call of any task and the start of the first looping task (or of the last task when there are at least as many tasks as requests), and admits a request waiting until the listener goes away otherwise; for every accept() call of every task (called in step p, returned in step q or never) and every request certainly delivered by step j (the END of its delivery range: link-history range for remote, connect step + 4 for same-host requests): the request is not still waiting (neither accepted, refused nor given up on) after step max(j, p) + 1 while that call has not returned - no connect is left waiting in the queue while a task is parked in accept(). Non-trivial = >= 2 connectors pending at once and >= 1 refusal or give-up. Distinct by scenario hash.",
         &[
             "pending requests stay far below tcp_capacity (64)",
             "events that fall in the very step of a bind / drop / re-bind (free-running same-host connectors: within one step of it), or within 2 steps of a give-up, are admitted either way (documented race)",
             "a request that reaches a bound listener while every accepting task is busy (not inside accept()) may wait for as long as that lasts: the property text bounds the wait only while somebody is accepting; such requests are refused by the end-of-run listener drop",
-            "accept order is only asserted for remote connectors whose SYNs are delivered at least 2 steps apart, under fixed latency",
+            "accept order is only asserted for requests whose admissible delivery ranges lie at least 2 steps apart (remote: under fixed latency; same-host: range as below)",
+            "same-host delivery latency is not asserted: a request to the connector's own host (own address or 127.0.0.1 / ::1) is assumed to be delivered no earlier than the step after the connect call and no later than 4 steps after it (harness constant LOCAL_K; the only timing assumption, needed for the promptness clauses), and same-host requests may overtake each other; no verdict depends on which step of the range it is",
             "link conditions the rustdoc leaves open are not asserted: whether a hold survives partition / repair, whether a partition survives hold / release, whether repair lets parked messages go, hold / partition at the very instant of a release or while the request may already have been delivered",
             "only two-way partition / repair (the one-way variants are documented as unsupported together with hold)",
         ],
